@@ -102,3 +102,47 @@ func zzC04_unbuffered() {
 	zzAssert(got.Software == fresh.Software && got.ImageDescription == fresh.ImageDescription, "a truncated value reads the same on pristine pools and after an arbitrary earlier file")
 	zzReached("end")
 }
+
+// history through the pending-tag buffer: decode a target on pristine pools, then an earlier-file stand-in whose two
+// out-of-line values stay in the recycled tag buffer, then the target again. The target is a one-entry IFD0 whose
+// entry is arbitrary within small classes (DateTime / ImageWidth / Software, ASCII or SHORT, count 0..4 or 20,
+// value slot arbitrary) followed by 44 arbitrary bytes, cut after the entries, after the next-IFD pointer or not at all.
+func zzC04_history_N() int { return 3 }
+func zzC04_history() {
+	id := []uint16{0x0132, 0x0100, 0x0131}[zzPart()]
+	t := zzNewTiff(8+2+12+4+44, false, 8)
+	t.dir(8, 1, 0)
+	typ, cnt := zzU16("typ"), zzU32("cnt")
+	zzAssume(typ == 2 || typ == 3)
+	typ = uint16(zzConc(uint64(typ), 2))
+	zzAssume(cnt <= 4 || cnt == 20)
+	cnt = uint32(zzConc(uint64(cnt), 6))
+	slot := zzBytes("slot", 4)
+	zzAssume(slot[1] == 0 && slot[2] == 0 && slot[3] == 0 && (slot[0] == 0 || slot[0] == 26 || slot[0] == 40 || slot[0] == '1'))
+	slot[0] = byte(zzConc(uint64(slot[0]), 4))
+	slot[1], slot[2], slot[3] = 0, 0, 0
+	t.entRaw(8, 0, id, typ, cnt, slot)
+	t.bytes(26, zzBytes("v", 44))
+	cut := zzU8("cut")
+	zzAssume(cut == 22 || cut == 26 || cut == 70)
+	target := t.b[:int(zzConc(uint64(cut), 3))]
+
+	h := zzNewTiff(8+2+2*12+4+2+20+8+8, false, 8)
+	h.dir(8, 2, 0)
+	h.ent(8, 0, 0x0132, 2, 20, 40)
+	h.ent(8, 1, 0x010e, 2, 8, 60)
+	hd := zzBytes("hd", 14)
+	for _, c := range hd {
+		zzAssume(c >= '0' && c <= '9')
+	}
+	h.bytes(40, []byte{hd[0], hd[1], hd[2], hd[3], ':', hd[4], hd[5], ':', hd[6], hd[7], ' ', hd[8], hd[9], ':', hd[10], hd[11], ':', hd[12], hd[13], 0})
+	h.bytes(60, []byte("abcdefg\x00"))
+
+	fresh, ef := Parse(zzReaderOf(target))
+	_, _ = Parse(zzReaderOf(h.b))
+	again, ea := Parse(zzReaderOf(target))
+	zzAssert((ef == nil) == (ea == nil), "the same file gives the same success on pristine pools and after an earlier file")
+	zzAssert(fresh.Time.modifyDate == again.Time.modifyDate && fresh.ImageWidth == again.ImageWidth && fresh.Software == again.Software && fresh.ImageDescription == again.ImageDescription,
+		"the same file gives the same fields on pristine pools and after an earlier file")
+	zzReached("end")
+}
